@@ -43,6 +43,8 @@ type Recorder struct {
 	// mutating operations fail (unused by default).
 	closed   int
 	closeErr error
+	// getClientErr, when set, is returned by GetClient
+	getClientErr error
 	// delay makes every mutating operation take this long (a slow disk): it widens the windows in which
 	// the queue holds its lock across a storage call.
 	delay atomic.Int64
@@ -69,6 +71,12 @@ func (r *Recorder) Shutdown(context.Context) error              { return nil }
 // one per name) and as a file-backed storage extension does.  All namespaces
 // share the recorder's single contents map and history (keys are prefixed).
 func (r *Recorder) GetClient(_ context.Context, kind component.Kind, id component.ID, name string) (storage.Client, error) {
+	r.mu.Lock()
+	gerr := r.getClientErr
+	r.mu.Unlock()
+	if gerr != nil {
+		return nil, gerr
+	}
 	return &recClient{rec: r, prefix: kind.String() + "_" + id.String() + "_" + name + "/"}, nil
 }
 
@@ -150,6 +158,13 @@ func (c *recClient) Close(context.Context) error {
 	err := r.closeErr
 	r.mu.Unlock()
 	return err
+}
+
+// SetGetClientError makes GetClient fail with err (the storage extension cannot serve the component: its Start fails).
+func (r *Recorder) SetGetClientError(err error) {
+	r.mu.Lock()
+	r.getClientErr = err
+	r.mu.Unlock()
 }
 
 // SetCloseError makes every later Client.Close return err (a storage fault at shutdown).
